@@ -658,12 +658,9 @@ Section SetPreloads.
   Definition put_ldr (o : option T) (p : pstore T) : pstore T :=
     {| s_use_wt := s_use_wt p; s_wt := s_wt p; s_omm := s_omm p; s_curv := s_curv p; s_cmd := s_cmd p; s_reg := s_reg p; s_dvm := s_dvm p; s_lf := s_lf p; s_dlf := s_dlf p; s_momm := s_momm p; s_ldr := o |}.
 
-  (* f_cmd_map: the value (or the exception) of InversionImagingMapping._curvature_matrix_mapper_diag of this inversion, which no
-     output of an inversion consults; it passes the GLOBAL no-regularization index list to a per-mapper matrix, so it is kept as
-     a kernel that may raise *)
-  Record fit := { f_inp : input T; f_mode : option (wtilde T); f_st : state T; f_cmd_map : res (mat T) }.
+  Record fit := { f_inp : input T; f_mode : option (wtilde T); f_st : state T }.
   Definition with_st (f : fit) (st : state T) : fit :=
-    {| f_inp := f_inp f; f_mode := f_mode f; f_st := st; f_cmd_map := f_cmd_map f |}.
+    {| f_inp := f_inp f; f_mode := f_mode f; f_st := st |}.
   Definition fread (f : fit) (q : qty) : pval T * fit :=
     let (v, st) := observe K V (f_inp f) (f_mode f) q (f_st f) in (v, with_st f st).
   Fixpoint freads (f : fit) (qs : list qty) : list (pval T) * fit :=
@@ -681,12 +678,20 @@ Section SetPreloads.
                end, f)
     | Some _ => let (r, st) := dvm_ref_wt K inp (f_st f) in (Some (rdv r (store st)), with_st f st)
     end.
+  (* InversionImagingMapping._curvature_matrix_mapper_diag (since /repo commit f780999: one block
+     curvature_matrix_via_mapping_matrix_from(blurred mapping matrix of the mapper, noise_map) per mapper, WITHOUT the
+     no-regularization diagonal term, then curvature_matrix_mirrored_from) *)
+  Definition cmd_writes_map (inp : input T) : list (mwrite T) :=
+    map (fun x => {| mw_r0 := fst (snd x); mw_r1 := snd (snd x); mw_c0 := fst (snd x); mw_c1 := snd (snd x);
+                     mw_b := k_curv_mm K (conv_mm K (lo_mm (fst x))) (n inp) |}) (mappers inp).
+  Definition p_cmd_map (inp : input T) : mat T :=
+    mirror K (apply_mws K (zeros_m K (total inp) (total inp)) (cmd_writes_map inp)).
   Definition cmd_prop (f : fit) : res (option (mat T)) :=                 (* inversion._curvature_matrix_mapper_diag *)
     let inp := f_inp f in
     match f_mode f with
     | None => match s_cmd (store (f_st f)) with
               | Some m => Ok (Some m)
-              | None => if has_mapper inp then map_res (@Some (mat T)) (f_cmd_map f) else Ok None
+              | None => if has_mapper inp then Ok (Some (p_cmd_map inp)) else Ok None
               end
     | Some w => let (r, st) := cmd_ref K inp w (f_st f) in Ok (Some (rdm r (store st)))
     end.
@@ -774,10 +779,10 @@ Section SetPreloads.
                 let '(rs, P2, f0b, f1b) := run_setters t P1 f0a f1a in (r :: rs, P2, f0b, f1b)
     end.
   (* aa.Inversion(dataset, objs, settings, preloads=own): the inversion of a fit *)
-  Definition make_fit (inp : input T) (own : pstore T) (cmdm : res (mat T)) : res fit :=
+  Definition make_fit (inp : input T) (own : pstore T) : res fit :=
     match make_inversion K inp own with
     | Raise e => Raise e
-    | Ok mode => Ok {| f_inp := inp; f_mode := mode; f_st := {| cache := empty_cache T; store := own |}; f_cmd_map := cmdm |}
+    | Ok mode => Ok {| f_inp := inp; f_mode := mode; f_st := {| cache := empty_cache T; store := own |} |}
     end.
 End SetPreloads.
 
@@ -941,14 +946,13 @@ Inductive case :=
         (fresh : res (list (pval Q))) (outs : list (res (list (pval Q)))) (post : pstore Q)
   (* the factory given a Preloads object whose w_tilde may carry another noise_map_value *)
 | KNoise (inp : input Q) (pre : pstore Q) (raised : bool)
-  (* Preloads.set_*(fit_0, fit_1): the inversions of the two fits (input, own Preloads object, the value of the mapping
-     class's _curvature_matrix_mapper_diag), the attributes read from fit_0's inversion beforehand, the methods called in
+  (* Preloads.set_*(fit_0, fit_1): the inversions of the two fits (input, own Preloads object), the attributes read from fit_0's inversion beforehand, the methods called in
      order, and what the implementation did: which calls raised, the content of the Preloads object afterwards [post], the
      attributes [reads1] read from fit_0's inversion AFTER the calls ([outs1]) and from a fresh inversion ([fresh1]);
      [fresh_slots] = every slot as a fresh inversion of fit_0's class computes it (specification side);
      [dvm_loose] = fit_0's own preloaded data_vector_mapper may already hold the function rows *)
-| KSet (C : qmat) (o : oracle) (inp0 : input Q) (own0 : pstore Q) (cmdm0 : res qmat) (reads0 : list qty)
-       (inp1 : input Q) (own1 : pstore Q) (cmdm1 : res qmat) (ss : list setter) (raised : list bool) (post : pstore Q)
+| KSet (C : qmat) (o : oracle) (inp0 : input Q) (own0 : pstore Q) (reads0 : list qty)
+       (inp1 : input Q) (own1 : pstore Q) (ss : list setter) (raised : list bool) (post : pstore Q)
        (fresh_slots : pstore Q) (dvm_loose : bool) (reads1 : list qty) (outs1 fresh1 : res (list (pval Q))).
 
 (* np.max(abs(a - b)) < 1e-8 *)
@@ -975,9 +979,9 @@ Definition agree (k : case) : bool :=
          end
   | KNoise inp pre raised =>
       Bool.eqb (negb (is_ok (make_inversion (qkernels [] {| or_solve := []; or_ldc := []; or_ldr := [] |}) inp pre))) raised
-  | KSet C o inp0 own0 cmdm0 reads0 inp1 own1 cmdm1 ss raised post fresh_slots dvm_loose reads1 outs1 fresh1 =>
+  | KSet C o inp0 own0 reads0 inp1 own1 ss raised post fresh_slots dvm_loose reads1 outs1 fresh1 =>
       let K := qkernels C o in
-      match make_fit K inp0 own0 cmdm0, make_fit K inp1 own1 cmdm1 with
+      match make_fit K inp0 own0, make_fit K inp1 own1 with
       | Ok f0, Ok f1 =>
           let (_, f0a) := freads K code f0 reads0 in
           let '(rs, P, f0b, _) := run_setters K code qcmp ss empty_store f0a f1 in
@@ -1006,7 +1010,7 @@ Definition spec_ok (k : case) : bool :=
                      && match s_use_wt pre with Some b => b | None => true end in
       let w := match s_wt pre with Some w => w | None => ds_wt (in_ds inp) end in
       Bool.eqb raised (uses_wt && negb (Qeq_bool (hd 0 (ds_n (in_ds inp))) (wt_nv w)))
-  | KSet C o inp0 own0 cmdm0 reads0 inp1 own1 cmdm1 ss raised post fresh_slots dvm_loose reads1 outs1 fresh1 =>
+  | KSet C o inp0 own0 reads0 inp1 own1 ss raised post fresh_slots dvm_loose reads1 outs1 fresh1 =>
       (* what the set_* methods stored satisfies the fresh-value premise, and fit_0's inversion is undisturbed *)
       let sub {A} (eqa : A -> A -> bool) (x y : option A) : bool :=
         match x with Some v => match y with Some u => eqa v u | None => false end | None => true end in
